@@ -307,12 +307,9 @@ fn main() {
             let mut parser = RVParser::new(reader);
 
             let mut diags = Vec::new();
-            let parsed = parser.parse_from_file(
-                lint.path
-                    .to_str()
-                    .expect("unable to convert path to string"),
-                false,
-            );
+            // (a name that is not UTF-8 cannot be handed to the reader as it
+            // is: the reader then reports that it finds no such file)
+            let parsed = parser.parse_from_file(&lint.path.to_string_lossy(), false);
             parsed
                 .1
                 .iter()
